@@ -14,6 +14,13 @@ checks = {
    note="Assumed: contracts of strings.HasPrefix/Index/LastIndex/Split (specs/10_externals.spec), SMT-LIB strings are sequences of code points (Go strings are bytes; proofs hold for the larger domain), UTF-8 decoding of range-over-string abstracted by three axioms, mathematical integers. Pattern print/re-parse preservation is attempted but not claimed (see DESIGN section 13)."),
 }
 
+ "C09": dict(
+   category="other",
+   text="Proof that the byte stream hashed into the cache key equals a layout spec function of the abstract target state only (label, command, multiset of inputs, multiset of declared outputs incl. bin output, multiset of dependency digests, fingerprint map, platform unless multiplatform-cache; file contents in sorted path order), for every slice order and every map iteration order (the map-range loop is verified for an arbitrary pick of the next key). Hence no dependence on declaration/glob/map order, workspace location, time, host or scheduling. The injectivity half (no ambiguous concatenation) is decided per component boundary by lemmas over the layout spec; on the current tree four boundaries are refuted, each refutation is replayed on the real code under xxh3 and sha256 and recorded as a known finding, so the level is 'other', not 'proof'.",
+   design_ref="DESIGN.md section 7 (C09), section 14",
+   note="Assumed: hash functions uninterpreted (collision-freedom is the stated assumption for key equality => stream equality); Bag-theory axioms and sort/Join contracts in specs/30_hashing.spec; ghost stream semantics of the two Hasher implementations; file system unchanged while hashing (A-fs); protobuf marshalling in getOutputHash is not under contract yet."),
+}
+
 not_applicable = {
  "C18": "interrupt delivery at arbitrary times, bounded exit latency and teardown of child shells are temporal process-level behaviour; no pre/postcondition or invariant of a function expresses them (DESIGN.md section 8)",
  "C19": "an asymptotic cost bound is not a functional postcondition; a ghost-cost contract needs amortised reasoning over set cardinalities that no installed solver decides, and a failed cost proof yields nothing to replay (DESIGN.md section 8)",
